@@ -116,7 +116,15 @@ func (a lin) eval(env map[string]int64) int64 {
 
 // poolTerm renders an integer SSA value in the domain: constants, len(list) = L, r = sort.Search(len(list), …) = S<n>, ±.
 func (c *Ctx) poolTerm(ip *idPool, v ssa.Value, searches map[ssa.Value]string) lin {
+	return c.poolTermOn(nil, ip, v, searches)
+}
+
+// poolTermOn is poolTerm along an inlined path: a helper's parameter is the argument bound to it.
+func (c *Ctx) poolTermOn(p *core.Path, ip *idPool, v ssa.Value, searches map[ssa.Value]string) lin {
 	v = conversionsOnly(v)
+	if p != nil {
+		v = conversionsOnly(p.Resolve(v))
+	}
 	if k, ok := constInt(v); ok {
 		return lin{c: k, vars: map[string]int64{}, ok: true}
 	}
@@ -136,9 +144,9 @@ func (c *Ctx) poolTerm(ip *idPool, v ssa.Value, searches map[ssa.Value]string) l
 	if bo, ok := v.(*ssa.BinOp); ok {
 		switch bo.Op {
 		case token.ADD:
-			return c.poolTerm(ip, bo.X, searches).add(c.poolTerm(ip, bo.Y, searches), 1)
+			return c.poolTermOn(p, ip, bo.X, searches).add(c.poolTermOn(p, ip, bo.Y, searches), 1)
 		case token.SUB:
-			return c.poolTerm(ip, bo.X, searches).add(c.poolTerm(ip, bo.Y, searches), -1)
+			return c.poolTermOn(p, ip, bo.X, searches).add(c.poolTermOn(p, ip, bo.Y, searches), -1)
 		}
 	}
 	return lin{}
@@ -199,18 +207,66 @@ func models(vars []string, facts []linFact, each func(env map[string]int64) bool
 
 // ruleFreeListBounds implements C06-R6.
 func (c *Ctx) ruleFreeListBounds(id string) {
-	ru := c.R.Rule(id, "every index into, and every re-slicing of, the pool's free list is within bounds on every path that reaches it, for every length of the list (0 included) and every position a binary search over it can return: no sequence of Get/Put calls makes the allocator panic", "E1 paths to the access + finite-model decision over (len, search result)", 3)
+	ru := c.R.Rule(id, "every index into, and every re-slicing of, the pool's free list is within bounds on every path that reaches it, for every length of the list (0 included) and every position a binary search over it can return: no sequence of Get/Put calls makes the allocator panic", "E1 paths to the access (the pool's helpers inlined) + finite-model decision over (len, search result)", 3)
 	ip := c.idPool(ru)
 	if ip == nil {
 		return
 	}
-	for _, f := range c.poolMethods(ip) {
-		c.R.Fn(c.fname(f))
-		n := 0
-		for _, b := range f.Blocks {
-			for _, in := range b.Instrs {
+	methods := c.poolMethods(ip)
+	isMethod := map[*ssa.Function]bool{}
+	for _, f := range methods {
+		isMethod[f] = true
+	}
+	called := map[*ssa.Function]bool{}
+	for _, f := range methods {
+		for _, cl := range core.CallsIn(f) {
+			if cl.Static != nil && cl.Static != f && isMethod[cl.Static] {
+				called[cl.Static] = true
+			}
+		}
+	}
+	type verdict struct {
+		bad       string
+		undecided bool
+		n         int
+		at        ssa.Instruction
+	}
+	res := map[ssa.Instruction]*verdict{}
+	var order []ssa.Instruction
+	isListStore := func(in ssa.Instruction) bool {
+		st, ok := in.(*ssa.Store)
+		if !ok {
+			return false
+		}
+		fa, ok := st.Addr.(*ssa.FieldAddr)
+		if !ok || fa.Field != ip.list {
+			return false
+		}
+		nn, ok := derefT(fa.X.Type()).(*types.Named)
+		return ok && nn == ip.named
+	}
+	for _, root := range methods {
+		if called[root] {
+			continue // judged on the paths of the methods that call it
+		}
+		c.R.Fn(c.fname(root))
+		paths, err := c.pathsInlinedPkg(root, core.PathOpts{}, func(g *ssa.Function) bool { return !isMethod[g] })
+		if err != nil {
+			ru.Undecided("paths of "+c.fname(root), c.whereF(root), err.Error())
+			continue
+		}
+		ru.Evals(len(paths))
+		for _, p := range paths {
+			ds := decisions(p)
+			searches := map[ssa.Value]string{}
+			replaced := false
+			for seq, pi := range p.Instrs() {
+				in := pi.In
+				if isListStore(in) {
+					replaced = true
+				}
 				var idxs []ssa.Value
-				var kind string
+				kind := ""
 				switch x := in.(type) {
 				case *ssa.IndexAddr:
 					if ip.isListLoad(x.X) {
@@ -230,91 +286,81 @@ func (c *Ctx) ruleFreeListBounds(id string) {
 				if kind == "" {
 					continue
 				}
-				n++
-				key := fmt.Sprintf("%s #%d on %s in %s", kind, n, ip.listName, c.fname(f))
-				target := b
-				paths, err := core.EnumPaths(f, core.PathOpts{Stop: func(bb *ssa.BasicBlock) bool { return bb == target }})
-				if err != nil {
-					ru.Undecided(key, c.whereI(in), err.Error())
+				v := res[in]
+				if v == nil {
+					v = &verdict{at: in}
+					res[in] = v
+					order = append(order, in)
+					c.R.Fn(c.fname(in.Parent()))
+				}
+				v.n++
+				if v.bad != "" {
 					continue
 				}
-				bad := ""
-				decided := true
-				for _, p := range paths {
-					if len(p.Blocks) == 0 || p.Blocks[len(p.Blocks)-1] != target {
-						continue
+				var terms []lin
+				decided := !replaced
+				for _, iv := range idxs {
+					t := c.poolTermOn(p, ip, iv, searches)
+					if !t.ok {
+						decided = false
 					}
-					ru.Evals(1)
-					searches := map[ssa.Value]string{}
-					var facts []linFact
-					// the list must not have been replaced on the way (its length is one symbol)
-					for _, pi := range p.Instrs() {
-						if pi.In == in {
-							break
-						}
-						if st, ok := pi.In.(*ssa.Store); ok {
-							if fa, ok := st.Addr.(*ssa.FieldAddr); ok && fa.Field == ip.list {
-								if nn, ok := derefT(fa.X.Type()).(*types.Named); ok && nn == ip.named {
-									decided = false
-								}
-							}
-						}
-					}
-					for _, d := range decisions(p) {
-						bo, ok := d.Cond.(*ssa.BinOp)
-						if !ok {
-							continue
-						}
-						a, bb := c.poolTerm(ip, bo.X, searches), c.poolTerm(ip, bo.Y, searches)
-						if a.ok && bb.ok {
-							facts = append(facts, linFact{a, bb, bo.Op, d.Val})
-						}
-					}
-					var terms []lin
-					for _, iv := range idxs {
-						t := c.poolTerm(ip, iv, searches)
-						if !t.ok {
-							decided = false
-						}
-						terms = append(terms, t)
-					}
-					if !decided {
-						continue
-					}
-					vars := []string{"L"}
-					for _, name := range searches {
-						vars = append(vars, name)
-					}
-					sortStrings(vars[1:])
-					models(vars, facts, func(env map[string]int64) bool {
-						for k, t := range terms {
-							v := t.eval(env)
-							upper := env["L"]
-							inBounds := v >= 0 && v < upper
-							if kind == "slice bound" {
-								inBounds = v >= 0 && v <= upper
-							}
-							if !inBounds {
-								bad = fmt.Sprintf("with %d free interval(s) in the list%s the %s evaluates to %d on path %s: the allocator panics", env["L"], searchDesc(env), kind, v, fmtPath(p, c.P))
-								_ = k
-								return false
-							}
-						}
-						return true
-					})
-					if bad != "" {
+					terms = append(terms, t)
+				}
+				if !decided {
+					v.undecided = true
+					continue
+				}
+				var facts []linFact
+				for _, d := range ds {
+					if d.Seq >= seq {
 						break
 					}
+					bo, ok := d.Cond.(*ssa.BinOp)
+					if !ok {
+						continue
+					}
+					a, bb := c.poolTermOn(p, ip, bo.X, searches), c.poolTermOn(p, ip, bo.Y, searches)
+					if a.ok && bb.ok {
+						facts = append(facts, linFact{a, bb, bo.Op, d.Val})
+					}
 				}
-				switch {
-				case bad != "":
-					ru.Fail(key, c.whereI(in), bad)
-				case !decided:
-					ru.Undecided(key, c.whereI(in), "the index is not a constant, the list length or a binary-search position (±constant), or the list is replaced before the access")
-				default:
-					ru.OK(key, c.whereI(in), "in bounds for every list length and search position consistent with the guards")
+				vars := []string{"L"}
+				for _, name := range searches {
+					vars = append(vars, name)
 				}
+				sortStrings(vars[1:])
+				models(vars, facts, func(env map[string]int64) bool {
+					for _, t := range terms {
+						val := t.eval(env)
+						upper := env["L"]
+						inBounds := val >= 0 && val < upper
+						if kind == "slice bound" {
+							inBounds = val >= 0 && val <= upper
+						}
+						if !inBounds {
+							v.bad = fmt.Sprintf("with %d free interval(s) in the list%s the %s evaluates to %d on path %s: the allocator panics", env["L"], searchDesc(env), kind, val, fmtPath(p, c.P))
+							return false
+						}
+					}
+					return true
+				})
 			}
+		}
+	}
+	for i, in := range order {
+		v := res[in]
+		kind := "index"
+		if _, isSl := in.(*ssa.Slice); isSl {
+			kind = "slice bound"
+		}
+		key := fmt.Sprintf("%s #%d on %s in %s", kind, i+1, ip.listName, c.fname(in.Parent()))
+		switch {
+		case v.bad != "":
+			ru.Fail(key, c.whereI(in), v.bad)
+		case v.undecided:
+			ru.Undecided(key, c.whereI(in), "the index is not a constant, the list length or a binary-search position (±constant), or the list is replaced before the access")
+		default:
+			ru.OK(key, c.whereI(in), fmt.Sprintf("in bounds on %d path occurrence(s), for every list length and search position consistent with the guards", v.n))
 		}
 	}
 }
